@@ -18,6 +18,7 @@ func CompileGlobs(globs []string) (*regexp.Regexp, error) {
 
 	var pattern strings.Builder
 	pattern.WriteRune('^')
+	pattern.WriteString("(?:")
 	for i, g := range globs {
 		if i > 0 {
 			pattern.WriteRune('|')
@@ -58,6 +59,7 @@ func CompileGlobs(globs []string) (*regexp.Regexp, error) {
 		}
 		pattern.WriteRune(')')
 	}
+	pattern.WriteRune(')')
 	pattern.WriteRune('$')
 
 	return regexp.Compile(pattern.String())
